@@ -239,6 +239,13 @@ def _state_I(res, zs, ks, count=True):
     d = dict(zip(keys, bs))
     got, wn = _call_is(res, lambda: ionic_strength(d, substances=" ".join(keys)))
     ok &= _judge(res, "ionic_strength", "dict+substances-string", got, wn, ref, net, dict(case, keys=keys))
+    # the substances may be listed in another order than the molalities (and may be a larger registry)
+    got, wn = _call_is(res, lambda: ionic_strength(d, substances=" ".join(keys[::-1])))
+    ok &= _judge(res, "ionic_strength", "dict+substances-string-reversed", got, wn, ref, net, dict(case, keys=keys))
+    from collections import OrderedDict as _OD
+    sreg = _OD((k, Substance.from_formula(k)) for k in (["Al+3"] + keys[::-1] + ["SO4-2"]) if True)
+    got, wn = _call_is(res, lambda: ionic_strength(d, substances=sreg))
+    ok &= _judge(res, "ionic_strength", "dict+substances-registry", got, wn, ref, net, dict(case, keys=keys))
     subst = {"s%d" % i: Substance.from_formula(k) for i, k in enumerate(keys)}
     d2 = {"s%d" % i: b for i, b in enumerate(bs)}
     got, wn = _call_is(res, lambda: ionic_strength(d2, substances=subst))
@@ -248,7 +255,7 @@ def _state_I(res, zs, ks, count=True):
     if not isinstance(got, str):
         got = _mag_molal(got)
     ok &= _judge(res, "ionic_strength", "dict-of-quantities", got, wn, ref, net, dict(case, keys=keys))
-    res.symbols["form:dict-variants"] += 3
+    res.symbols["form:dict-variants"] += 5
     if count:
         res.outcomes[("neutral" if net == 0 else "charged") + ("-ok" if ok else "-VIOLATED") + "-n%d" % r] += 1
         if ref > res.extra.get("max_ionic_strength", 0):
